@@ -477,6 +477,14 @@ func checkFunApply(z ast.ApplyFn, fnTpe ast.BaseTerm, varRanges map[ast.Variable
 	if err != nil {
 		return nil, fmt.Errorf("could not unify %v and %v: %v", actualTpes, argTypes, err)
 	}
+	// The unifier does not report every conflict (e.g. X bound to two different types), so
+	// check that each actual argument type conforms to the instantiated parameter type.
+	for i, actual := range actualTpes {
+		want := argTypes[i].ApplySubstBase(ast.SubstMap(subst))
+		if !symbols.SetConforms(nil, actual, want) {
+			return nil, fmt.Errorf("argument %d of %v has type %v want %v", i, z, actual, want)
+		}
+	}
 	res, err := symbols.FunTypeResult(fnTpe)
 	if err != nil {
 		return nil, fmt.Errorf("not a function type: %v", fnTpe)
